@@ -31,8 +31,9 @@ type HeapEnv struct {
 	S      *Script
 	sorts  map[string]Sort
 	epochs int
-	// written records keys written (for loop havoc discovery)
-	onWrite func(key string)
+	// onWrite records keys written, with the reference written at when known (loop havoc discovery)
+	onWrite func(key string, ref *Term)
+	curRef  *Term
 }
 
 func NewHeapEnv(s *Script) *HeapEnv { return &HeapEnv{S: s, sorts: map[string]Sort{}} }
@@ -98,10 +99,17 @@ func (he *HeapEnv) Get(h *HeapState, key string, sort Sort) Term {
 func (he *HeapEnv) Set(h *HeapState, key string, val Term) *HeapState {
 	he.sortOf(key, val.Sort)
 	if he.onWrite != nil {
-		he.onWrite(key)
+		he.onWrite(key, he.curRef)
 	}
 	val = he.S.Define("h_"+key, val)
 	return &HeapState{kind: 1, parent: h, key: key, val: val, memo: map[string]Term{}, next: h.next}
+}
+
+// SetAt is Set with the written reference made known to the write observer.
+func (he *HeapEnv) SetAt(h *HeapState, key string, ref Term, val Term) *HeapState {
+	he.curRef = &ref
+	defer func() { he.curRef = nil }()
+	return he.Set(h, key, val)
 }
 
 func (he *HeapEnv) WithNext(h *HeapState, next Term) *HeapState {
@@ -140,7 +148,7 @@ func (he *HeapEnv) HavocAll(h *HeapState) *HeapState {
 	nx := he.S.Declare("next", SInt)
 	he.S.Assert(IntLe(h.next, nx))
 	if he.onWrite != nil {
-		he.onWrite("*")
+		he.onWrite("*", nil)
 	}
 	return he.Base(nx)
 }
@@ -260,7 +268,7 @@ func (he *HeapEnv) StoreLoc(h *HeapState, l *Loc, vals []Term) *HeapState {
 	for i, lf := range ls {
 		key := l.Prefix + lf.Path
 		a := he.Get(h, key, wrapSort(lf.Sort, len(l.Chain)))
-		h = he.Set(h, key, Store(a, l.Ref, nestedStore(Select(a, l.Ref), l.Chain, vals[i])))
+		h = he.SetAt(h, key, l.Ref, Store(a, l.Ref, nestedStore(Select(a, l.Ref), l.Chain, vals[i])))
 	}
 	return h
 }
